@@ -347,8 +347,16 @@ TARGETS['p_none'] = p_none
 _CALLS = {}
 
 
-def p_pool(x, poison=(), fail_after=None, d=0.0):
-    """pool target: x is a unique input id; raises on poison inputs; dies after `fail_after` calls (per worker)"""
+def _linger(d):
+    """keeps the (child) process alive for d seconds after the worker's run loop has ended (non-daemon thread)"""
+    if d:
+        from simos.sync import Thread
+        Thread(target=time.sleep, args=(d,), name='lingering').start()
+
+
+def p_pool(x, poison=(), fail_after=None, d=0.0, linger=0.0):
+    """pool target: x is a unique input id; raises on poison inputs; dies after `fail_after` calls (per worker); with `linger`
+    the dying worker's process stays around for a while after its pipes are closed"""
     truth('p-enter', x=x)
     if isinstance(x, dict) and x.get('$swallow'):
         while True:
@@ -364,9 +372,11 @@ def p_pool(x, poison=(), fail_after=None, d=0.0):
         time.sleep(d)
     if x in poison:
         truth('p-leave', x=x, how='raise')
+        _linger(linger)
         raise MyError(f'poison {x}')
     if fail_after is not None and n > fail_after:
         truth('p-leave', x=x, how='raise')
+        _linger(linger)
         raise MyError(f'worker gives up after {fail_after} calls')
     truth('p-leave', x=x)
     return ['r', x]
